@@ -122,6 +122,7 @@ class Explorer:
         self.stats = defaultdict(int)
         self.feas_timeout_ms = feas_timeout_ms
         self.feas_axioms = True
+        self.feas_light = os.environ.get('PYVC_FEAS_LIGHT', '1') == '1'   # feasibility checks without pairwise schemas
         self.timeout_ms = timeout_ms
         self.merging = True
         self.merge_light_only = False
